@@ -68,6 +68,11 @@ def _matches(m: dict, ctx: Any, case: dict, v: dict) -> bool:
         return False
     if "traits_all" in m and not set(m["traits_all"]) <= set(case.get("traits") or []):
         return False
+    if m.get("classical_negation"):
+        from . import refast
+
+        if not refast.has_classical_negation(ctx.source):
+            return False
     if "layout" in m and case.get("layout", "normal") not in m["layout"]:
         return False
     return True
